@@ -92,7 +92,18 @@ def run(repo, rep, tier):
         if isinstance(s, ast.Assign) and isinstance(s.targets[0], ast.Name) and s.targets[0].id == OUT:
             t = unparse(s.value)
             v = s.value
-            if "% 360" in t and "assign_coords" in t:
+            is_mod = False
+            if isinstance(v, ast.Call) and isinstance(v.func, ast.Attribute) and v.func.attr == "assign_coords":
+                for d_ in [a_ for a_ in v.args if isinstance(a_, ast.Dict)]:
+                    for vv in d_.values:
+                        vv = resolve(fi.node, vv, before=s.lineno) if isinstance(vv, ast.Name) else vv
+                        if any(isinstance(x, ast.BinOp) and isinstance(x.op, ast.Mod) and repo.const(fi.module, x.right) == 360 for x in ast.walk(vv)):
+                            is_mod = True
+                for k_ in v.keywords:
+                    vv = resolve(fi.node, k_.value, before=s.lineno) if isinstance(k_.value, ast.Name) else k_.value
+                    if any(isinstance(x, ast.BinOp) and isinstance(x.op, ast.Mod) and repo.const(fi.module, x.right) == 360 for x in ast.walk(vv)):
+                        is_mod = True
+            if is_mod:
                 seq.append(("mod", s.lineno))
             elif "unique_indices" in t:
                 seq.append(("unique", s.lineno))
